@@ -189,13 +189,14 @@ def attrs_of(st, out):
             attrs_of(kid, out)
     for kid in getattr(st, 'states', []):
         attrs_of(kid, out)
-    for name in ('left', 'right', 'att', 'xatt', 'yatt'):
+    for name in ('left', 'right', 'att', 'xatt', 'yatt', 'zatt'):
         a = getattr(st, name, None)
         if isinstance(a, ComponentID):
             out.append(a)
-    for a in (getattr(st, 'cids', None) or []):
-        if isinstance(a, ComponentID):
-            out.append(a)
+    for name in ('cids', 'atts', '_atts'):
+        for a in (getattr(st, name, None) or []):
+            if isinstance(a, ComponentID) and not any(a is x for x in out):
+                out.append(a)
     ref = getattr(st, 'reference_data', None)
     if ref is not None and hasattr(ref, 'pixel_component_ids'):
         out.extend(ref.pixel_component_ids)     # a slice selection is carried to other datasets through pixel links
